@@ -330,7 +330,7 @@ def scenarios(th):
     s.append(("seq", Scenario("seq-three", "ps", T_INF, [["create " + A], ["open -"], ["open -", "ooc -", "create -"]])))
     s.append(("seq", Scenario("seq-event", "ev", T_INF, [["ooc v=2,-,-,2,-,-,-,-", "drop 0"], ["ooc -", "open v=3,-,-,-,-,-,-,-", "drop 0"]])))
     s.append(("seq", Scenario("seq-timeout0", "ps", 0, [["ooc " + A, "open -", "drop 1", "drop 0"], ["open -", "ooc " + B]])))
-    s.append(("seq", Scenario("seq-slice-panic", "ps", T_INF, [["create ty=4;v=-,-,-,-,-,-,0", "open ty=4", "create ty=4"]])))
+    s.append(("seq", Scenario("seq-slice-zero", "ps", T_INF, [["create ty=4;v=-,-,-,-,-,-,0", "open ty=4", "create ty=4"]])))
     # races
     s.append(("race", Scenario("create-create", "ps", T_INF, [["create " + A], ["create " + B]])))
     s.append(("race", Scenario("create-open", "ps", T_INF, [["create " + A], ["open -"]])))
@@ -389,7 +389,7 @@ def g2_stage(ctx, exe):
     th = ctx.thorough()
     stats = {"executions": 0, "calls": 0, "scenarios": {}, "outcomes": {}}
     t0 = time.time()
-    budget = 900 if th else 150
+    budget = 900 if th else 110
     for kind, sc in scenarios(th):
         if time.time() - t0 > budget:
             ctx.notes.append("G2: time budget reached before scenario " + sc.name)
@@ -405,8 +405,9 @@ def g2_stage(ctx, exe):
                               {"obligation": "libc-call trace of each real operation = step list of model/Service.v", "scenario": sc.name,
                                "lines": rec["lines"][:300], "how_to_rerun": "python3 tools/checks/C06.py g2 " + sc.name}, no_input=True)
         else:
-            bound = (2 if sc.name in ("create-open", "ooc-ooc", "drop-ooc") else 1) + (1 if th else 0)
-            n, calls, bad, outcomes = g2_explore(sc, bound, exe, 4000 if th else 120)
+            bound = (2 if sc.name in ("create-open", "ooc-ooc", "drop-ooc") else 1) + 1 if th else 1
+            left = max(3, int((budget - (time.time() - t0)) / 4))
+            n, calls, bad, outcomes = g2_explore(sc, bound, exe, 4000 if th else min(24, left))
             stats["executions"] += n
             stats["calls"] += calls
             stats["scenarios"][sc.name] = {"executions": n, "preemption_bound": bound, "outcomes": outcomes}
@@ -420,41 +421,46 @@ def g2_stage(ctx, exe):
                 if sc.name == "create-create" and oks > 1:
                     ctx.violation("two concurrent create calls both succeeded: " + key, {"scenario": sc.name, "outcome": key}, key="create:two-creators")
                 if "panic" in key or "ServiceInCorruptedState" in key or "InternalFailure" in key:
-                    ctx.violation("a racing call ended with an undocumented failure: " + key, {"scenario": sc.name, "outcome": key},
-                                  key="race:" + sc.name + ":undocumented-error")
+                    kf = "open:blackboard-open-during-creation-reports-corrupted" if (sc.pat == "bb" and "open err o:ServiceInCorruptedState" in key and "panic" not in key) else None
+                    ctx.violation("a racing call ended with an undocumented failure (%s): %s" % (sc.name, key), {"scenario": sc.name, "outcome": key}, key=kf)
     ctx.cov["g2"] = stats
     return stats
 
 
 def witness_stage(ctx, exe, g3exe):
     w = {}
-    # D2: slice payload builders skip the zero adjustment
-    rc, out = vlib.sh([g3exe, "one", "ipc", "ps", "lib", "1", "create_0_ty=4;v=0,-,-,-,-,-,-"], timeout=120)
-    lines = [l for l in out.split("\n") if l.startswith("O ")]
-    w["slice_zero"] = lines[:3]
-    if any("= panic" in l for l in lines):
-        leak = [l for l in lines if l.startswith("O end")]
-        ctx.violation("publish_subscribe::<[T]>().max_publishers(0).create() panics (fatal_panic in DynamicConfig::init: the slice builders do not "
-                      "run adjust_configuration_to_meaningful_values) and leaves the dynamic config segment behind: " + " / ".join(lines[:1] + leak)[:400],
-                      {"history": lines, "how_to_rerun": g3exe + " one ipc ps lib 1 'create_0_ty=4;v=0,-,-,-,-,-,-'",
-                       "theorem": "c06_terminates_full is refuted by this history (c06_terminates_refuted); c06_terminates_partial excludes zero capacities"},
-                      key="create:slice-zero-capacity-panics")
+    # regression (fixed by c6a737e): slice payload builders adjust zero capacities; no panic, nothing left behind
+    reg = [["one", "ipc", "ps", "lib", "1", "create_0_ty=4;v=0,-,-,-,-,-,-"], ["one", "ipc", "ps", "lib", "1", "create_0_ty=4;v=-,0,-,-,-,-,0"],
+           ["one", "ipc", "ps", "lib", "1", "ooc_0_ty=4;v=0,-,-,-,-,-,0"], ["one", "ipc", "rr", "lib", "1", "create_0_ty=4/0;v=-,-,-,-,-,-,-,0,0,0"]]
+    w["slice_zero_regressions"] = []
+    for argv in reg:
+        rc, out = vlib.sh(" ".join("'%s'" % a for a in [g3exe] + argv) + " 2>/dev/null | " + DRIVER, timeout=180)
+        rc2, raw = vlib.sh([g3exe] + argv, timeout=180)
+        lines = [l for l in raw.split("\n") if l.startswith("O ")]
+        w["slice_zero_regressions"].append(lines[:2])
+        endl = [l for l in lines if l.startswith("O end")]
+        bad = any("= panic" in l for l in lines) or not endl or "ls=0,0,0" not in endl[0] or "MISMATCH" in out or "SUMMARY" not in out
+        if bad:
+            ctx.violation("regression: create of a slice-payload service with a zero capacity must be adjusted to 1 (no panic, no leaked dynamic config, model agrees): "
+                          + " / ".join(lines[:1] + endl)[:300], {"history": lines, "driver": out[-600:], "how_to_rerun": " ".join([g3exe] + argv) + " | " + DRIVER})
     try:
         rec, spins = witness_zero_size_spin(exe)
         w["zero_size_spin"] = {"opener_fstat_zero": spins, "stalled": rec["stalled"], "opener_result": rec["results"].get("p1")}
-        if rec["stalled"] == "p1" and spins >= 10:
+        tail = [l for l in rec["lines"] if l.startswith("X 1 ")][-20:]
+        only_retry = all(re.match(r"X 1 (shm_open dyn\d+ ok|fstat dyn\d+ zero)$", l) for l in tail)
+        if rec["stalled"] == "p1" and not rec["results"].get("p1") and spins >= 10 and only_retry:
             ctx.violation("open() with creation_timeout = 0 never returns while the creator stands between shm_open(O_CREAT|O_EXCL) and ftruncate of the "
                           "dynamic config: posix_shared_memory open_impl retries MappingSizeIsZero without a timeout check (%d retries observed, then stopped)" % spins,
                           {"schedule": "creator: 12 gated calls up to shm_open(O_CREAT|O_EXCL); then only the opener", "trace_tail": rec["lines"][-12:],
                            "how_to_rerun": "python3 tools/checks/C06.py witness zero-size",
-                           "theorem": "c06_terminates_full is refuted by this schedule (c06_open_spin_refuted)"},
+                           "theorem": "c06_terminates_full is refuted by this schedule (c06_terminates_refuted, c06_open_spin_refuted)"},
                           key="open:zero-size-dynamic-config-spins-without-timeout")
     except (gatectl.GateError, gatectl.GateTimeout) as ex:
         ctx.notes.append("witness zero-size could not be replayed: %r" % (ex,))
     try:
         rec = witness_blackboard(exe)
         w["blackboard"] = rec["results"]
-        if any("ServiceInCorruptedState" in x for x in rec["results"].get("p1", [])):
+        if rec["results"].get("p1") == ["open err o:ServiceInCorruptedState"] and rec["results"].get("p0", [""])[0].startswith("create ok"):
             ctx.violation("blackboard open() racing with a healthy, still running create() returns ServiceInCorruptedState: the opener opens the "
                           "blackboard resources (created AFTER the static config is unlocked) before the dynamic config and does not wait for them",
                           {"results": rec["results"], "schedule": "creator stopped after fchmod(static config, 0400); opener runs to completion",
@@ -499,12 +505,6 @@ def run_inner(ctx):
     # ---- G3 ----
     jobs = []
     nr = 400 if th else 30
-    for pat in ("ps", "ev", "rr", "bb"):
-        for dm in ("lib", "small1"):
-            nsh = 4 if pat in ("ps", "rr") else 2
-            for i in range(nsh):
-                jobs.append(("matrix:%s:%s:ipc:%d" % (pat, dm, i), [g3exe, "matrix", "ipc", pat, dm, str(i), str(nsh), seed, str(nr)]))
-        jobs.append(("matrix:%s:lib:local" % pat, [g3exe, "matrix", "local", pat, "lib", "0", "1", seed, str(nr)]))
 
     def hist(svc, pat, nn, ln, nsh):
         for i in range(nsh):
@@ -512,16 +512,23 @@ def run_inner(ctx):
 
     for pat in ("ps", "ev", "rr", "bb"):
         if th:
+            for dm in ("lib", "small1"):
+                nsh = 4 if pat in ("ps", "rr") else 2
+                for i in range(nsh):
+                    jobs.append(("matrix:%s:%s:ipc:%d" % (pat, dm, i), [g3exe, "matrix", "ipc", pat, dm, str(i), str(nsh), seed, str(nr)]))
+                jobs.append(("matrix:%s:%s:local" % (pat, dm), [g3exe, "matrix", "local", pat, dm, "0", "1", seed, str(nr)]))
             hist("ipc", pat, 1, 5, 1)
             hist("ipc", pat, 2, 5, 4)
             hist("ipc", pat, 3, 5, 16)
             hist("local", pat, 3, 5, 8)
         else:
-            hist("ipc", pat, 1, 4, 1)
-            hist("ipc", pat, 2, 3, 1)
+            # quick: the whole matrix on the local service type (no file system traffic), every 8th case on ipc
+            for dm in ("lib", "small1"):
+                for i in range(2):
+                    jobs.append(("matrix:%s:%s:local:%d" % (pat, dm, i), [g3exe, "matrix", "local", pat, dm, str(i), "2", seed, str(nr)]))
+            jobs.append(("matrix:%s:lib:ipc:0of8" % pat, [g3exe, "matrix", "ipc", pat, "lib", "0", "8", seed, str(nr)]))
             hist("local", pat, 3, 4 if pat in ("ps", "ev") else 3, 2)
-    if not th:
-        hist("ipc", "ps", 3, 3, 2)
+            hist("ipc", pat, 2, 3, 1)
     r = vlib.run_pipelines(jobs, DRIVER, timeout=2400)
     cleanup()
     os.makedirs(BASE, exist_ok=True)
@@ -538,7 +545,7 @@ def run_inner(ctx):
                 "creator with 1/1 (error priority), all payload/key type x type pairs (name, size, alignment 8/16, slice) also combined with a failing field, "
                 "attribute define x require x require_key sets, creation-time validity (safe_overflow x buffer x history; blackboard without entries), and "
                 "seeded random full settings; each with the library defaults and with all numeric defaults = 1. distinct = distinct (pattern, defaults, history)" %
-                ("length 5 with 1..3 nodes (ipc and local)" if th else "length 4 with 1 node, length 3 with 2-3 nodes (ipc), length 3-4 with 3 nodes (local); the thorough tier runs length 5 with 1..3 nodes"),
+                ("length 5 with 1..3 nodes (ipc and local)" if th else "quick tier: length 3-4 with 3 nodes (local), length 3 with 2 nodes (ipc), the matrix on local::Service and every 8th case on ipc::Service; the thorough tier runs length 5 with 1..3 nodes and the full matrix on both"),
         "exhaustive": False,
     })
     samples = []
